@@ -52,7 +52,7 @@ Proof. exact bht_code_refines. Qed.
 Print Assumptions C05_code_walk_refines.
 
 (* from the input file: for every accepted input (1..4 segments, ANY gradients, positive thicknesses, depth in
-   (0,100] km or omitted, Tsurf < Tmax < 1000) the magnitude heuristics give well-formed layers, the run succeeds and
+   (0,100] km or omitted (then 3 km), Tsurf < Tmax < 1000) the magnitude heuristics give well-formed layers, the run succeeds and
    bottom-hole temperature = min(T(depth walked), Tmax) <= Tmax *)
 Theorem C05_bht_of_input : forall i, input_ok i ->
   let gs := gradients_of i in let ths := thicknesses_of i in
@@ -72,18 +72,19 @@ Theorem C05_accepted_inputs : forall i, in_ranges i -> bi_Ts i < bi_Tmax i -> in
 Proof. exact ranges_imply_input_ok. Qed.
 Print Assumptions C05_accepted_inputs.
 
-(* the property's first sentence, under the extra hypothesis that the input file has a Reservoir Depth line *)
-Theorem C05_bht_meets_definition_partial : forall i km, input_ok i -> bi_depth_km i = Some km ->
+(* the property's first sentence, for every accepted input, with or without a Reservoir Depth line *)
+Theorem C05_bht_meets_definition : forall i, input_ok i ->
   exists T d, bht_of_input i = Good (T, d) /\ T == bht_spec i.
-Proof. exact bht_meets_spec_partial. Qed.
-Print Assumptions C05_bht_meets_definition_partial.
+Proof. exact bht_meets_spec. Qed.
+Print Assumptions C05_bht_meets_definition.
 
-(* ... and its failure without it: the 3 km default is walked as 3 m (15.15 degC instead of 165 degC) *)
-Theorem C05_bht_default_depth_refuted :
+(* the pinned tree (before fix a8610e4) failed it without that line: the 3 km default was walked as 3 m (15.15 degC
+   instead of 165 degC); kept as a named alternative, the witness is corpus/C05/01_depth_omitted.json *)
+Theorem C05_bht_default_depth_pinned_refuted :
   exists i, input_ok i /\ bi_depth_km i = None /\
-            exists T d, bht_of_input i = Good (T, d) /\ ~ T == bht_spec i.
-Proof. exact bht_default_depth_refuted. Qed.
-Print Assumptions C05_bht_default_depth_refuted.
+            exists T d, bht_of_input_pinned i = Good (T, d) /\ ~ T == bht_spec i.
+Proof. exact bht_default_depth_pinned_refuted. Qed.
+Print Assumptions C05_bht_default_depth_pinned_refuted.
 
 (* inside the usual ranges the heuristics read gradients as degC/km and thicknesses as km *)
 Theorem C05_heuristics_keep_documented_units :
@@ -242,7 +243,7 @@ Example C05_ex_layers :
   trock 15 150 [(5 # 100, 2000); (3 # 100, 1000)] (8 # 100) 3500 == 150.
 Proof. split. split. reflexivity. repeat constructor. split. discriminate. split; vm_compute; reflexivity. Qed.
 
-(* an accepted 3-segment input with a depth line: hypotheses of C05_bht_of_input / C05_bht_meets_definition_partial *)
+(* an accepted 3-segment input with a depth line: hypotheses of C05_bht_of_input / C05_bht_meets_definition *)
 Definition C05_ex_input : bht_input :=
   {| bi_n := 3; bi_Ts := 12; bi_Tmax := 181; bi_depth_km := Some (45 # 10);
      bi_grad := [Some (514 # 10); Some (799 # 10); Some (699 # 10)]; bi_thick := [Some (52 # 100); Some (43 # 100)] |}.
